@@ -177,6 +177,17 @@ PROPS = {
                 "downloaded (fleet-hostile); distinct = distinct SHA-256 of the event log",
         "assumptions": FLEET_ASSUME + ["memory proportionality is not measured; time is bounded by an iteration cap and the worker watchdog"],
     },
+    "C11": {
+        "level": "exploration",
+        "profiles": [{"name": "fleet-shadow", "weight": 1}],
+        "rule": "each case is one seeded run of 2-3 real shadow-mode instances whose applications put, overwrite and delete in byte-key DBIs, MDB_INTEGERKEY DBIs "
+                "(4- and 8-byte keys incl. 0, 2^31, 2^32-1, 2^63, 2^64-1), a DBI created while the syncer runs, with empty values in half of the runs, under bucket "
+                "faults, steady state only (no restarts); after every Lightning Stream transaction a map-based reference of the mirror is evaluated: every application "
+                "change since the previous step is captured as a version stamped with the detection time, untouched entries keep their timestamps, after a merge the "
+                "application DBIs equal the live entries of the merged state; non-trivial = at least one capture checked and snapshots downloaded; distinct = distinct "
+                "SHA-256 of the event log",
+        "assumptions": FLEET_ASSUME,
+    },
 }
 
 ALL_PROFILES = sorted({p["name"] for c in PROPS.values() for p in c["profiles"]})
@@ -252,4 +263,7 @@ MANIFEST_TEXT = {
     "C08": {"text": "Hostile and corrupt blobs are fed to the real decoder (component) and placed among honest snapshots in fleet runs with restarts and faults; a panic or hang "
                     "anywhere is a violation, and after the faults stop honest traffic must still be merged and published.",
             "note": SIM_NOTE + " Memory use is not measured.", "technique": "deterministic simulation with hostile-input injection at the bucket seam + bounded liveness after faults stop"},
+    "C11": {"text": "Shadow-mode fleets with integer-key DBIs, empty values and DBI creation; a map-based reference of the mirror is evaluated after every LS transaction "
+                    "(capture with detection-time stamp, untouched entries keep timestamps, application DBIs = live entries after a merge).",
+            "note": SIM_NOTE, "technique": "deterministic simulation (shadow-mode fleet) + map-based mirror reference evaluated per transaction"},
 }
